@@ -12,3 +12,5 @@ import L21.Props.C11
 #print axioms L21.LefEnum.c05_keyword_roundtrip
 #print axioms L21.LefEnum.c05_keywords_lex_as_one_name
 #print axioms L21.LefLex.c11_lex_total
+#print axioms L21.Lef.c05_write_read_text
+#print axioms L21.Lef.c05_ext_relex
